@@ -79,4 +79,122 @@ def session (p : Policy) (fuel : Nat) : SSys → List Char → List String
     | none => ["unmodelled"]
     | some (s', o) => if allReturned s' then o :: session p fuel s' rest else [o]
 
+
+/-! ## label-by-label replay of a trace of yield points (harness op `forced`)
+
+The harness records the order in which the goroutines of the real code pass the yield points
+(`verifC10` in /repo) plus what it did itself (`E:input`, `E:signal`, `E:settle`).  Each item is a
+label of the LTS; it must be enabled — possibly after labels that have no yield point (parser steps,
+the terminal's reply, the application receiving) — and lead to the program counter the yield point
+stands for. -/
+
+def hiddenLabels (s : SSys) : List SLabel :=
+  [.parser, .termReply] ++ (if s.consumer then [.consume] else [])
+
+/-- take `l`, if necessary after hidden labels -/
+def stepWeak : Nat → SSys → SLabel → Option SSys
+  | 0, s, l => snext s l
+  | fuel + 1, s, l =>
+    match snext s l with
+    | some s' => some s'
+    | none => match firstEnabled s (hiddenLabels s) with
+      | some s1 => stepWeak fuel s1 l
+      | none => none
+
+def runHidden : Nat → SSys → SSys
+  | 0, s => s
+  | fuel + 1, s => match firstEnabled s (hiddenLabels s) with
+    | some s' => runHidden fuel s'
+    | none => s
+
+structure Replay where
+  s : SSys
+  /-- role name of a `Close` caller ↦ its index in `callers` -/
+  roles : List (String × Nat) := []
+
+def pcName : CPc → String
+  | .checkFlag => "checkFlag" | .postQuit => "postQuit" | .checkSuspended => "checkSuspended" | .signalClose => "signalClose"
+  | .writeDA1 => "writeDA1" | .waitClosed => "waitClosed" | .closeQuit => "closeQuit" | .returned => "returned"
+
+/-- the program counter a yield point of `Close`/`Suspend` stands for (`none`: no step) -/
+def pointPc (s : SSys) : String → Option (Option CPc)
+  | "close.won" => some (some .postQuit)
+  | "close.already" => some (some .returned)
+  | "post.sent" => some (some .checkSuspended)
+  | "post.dropped" => some (some .checkSuspended)
+  | "close.posted" => some none
+  | "suspend.flagged" => some (some (afterGuard s))
+  | "suspend.already" => some (some .closeQuit)
+  | "suspend.signalled" => some (some (afterSignal s))
+  | "suspend.da1" => some (some (afterDA1 s))
+  | "suspend.closed" => some (some .closeQuit)
+  | "close.quit" => some (some .returned)
+  | _ => none
+
+def fuelW : Nat := 80
+
+def replayItem (r : Replay) (item : String) : Except String Replay :=
+  match item.splitOn ":" with
+  | ["E", "input"] => match snext r.s (.termInput (some 1)) with
+    | some s' => .ok { r with s := s' }
+    | none => .error "input"
+  | ["E", "signal"] => match snext r.s .signal with
+    | some s' => .ok { r with s := s' }
+    | none => .error "a second signal while one is pending"
+  | ["E", "settle"] => .ok { r with s := runHidden 400 r.s }
+  | ["I", "input.seq"] => match stepWeak fuelW r.s .inputRecv with
+    | some s' => (match s'.ipc with | .posting _ => .ok { r with s := s' } | _ => .error "input.seq: the model's input goroutine received EOF")
+    | none => .error "input.seq: no sequence can be in the channel"
+  | ["I", "input.eof"] => match stepWeak fuelW r.s .inputRecv with
+    | some s' => if s'.ipc == .done then .ok { r with s := s' } else .error "input.eof: the model's input goroutine received a sequence"
+    | none => .error "input.eof: EOF cannot be in the channel"
+  | ["I", "postb.sent"] => match r.s.ipc with
+    | .posting (_ + 1) => (match stepWeak fuelW r.s .inputStep with
+      | some s' => .ok { r with s := s' }
+      | none => .error "postb.sent: the queue is full and nobody receives")
+    | _ => .error "postb.sent: the model's input goroutine has no post to do"
+  | ["I", "input.handled"] => match r.s.ipc with
+    | .posting 0 => (match snext r.s .inputStep with
+      | some s' => .ok { r with s := s' }
+      | none => .error "input.handled")
+    | _ => .error "input.handled: the model's input goroutine still has posts to do"
+  | [role, "close.enter"] =>
+    if role == "I" then
+      match stepWeak fuelW r.s .inputKill with
+      | some s' => .ok { r with s := s' }
+      | none => .error "close.enter on the input goroutine: its select cannot take the signal arm"
+    else match snext r.s .callClose with
+      | some s' => .ok { s := s', roles := (role, r.s.callers.length) :: r.roles }
+      | none => .error "callClose"
+  | [role, point] =>
+    match pointPc r.s point with
+    | none => .error s!"unknown yield point {point}"
+    | some none => .ok r
+    | some (some expect) =>
+      if role == "I" then
+        match stepWeak fuelW r.s .inputStep with
+        | none => .error s!"{item}: blocked in the model"
+        | some s' =>
+          let got : Option CPc := match s'.ipc with | .closing c => some c | .done => some .returned | _ => none
+          if got == some expect then
+            if point == "post.sent" && !(r.s.queueLen < r.s.qcap) then .error "post.sent with a full queue"
+            else .ok { r with s := s' }
+          else .error s!"{item}: the model is at {(got.map pcName).getD "?"}"
+      else match r.roles.lookup role with
+        | none => .error s!"{item}: unknown role"
+        | some j =>
+          match stepWeak fuelW r.s (.caller j) with
+          | none => .error s!"{item}: blocked in the model"
+          | some s' =>
+            let got := s'.callers[j]?.map (·.pc)
+            if got == some expect then .ok { r with s := s' }
+            else .error s!"{item}: the model is at {(got.map pcName).getD "?"}"
+  | _ => .error s!"malformed trace item {item}"
+
+def replayTrace (r : Replay) : List String → Except String Replay
+  | [] => .ok r
+  | x :: rest => match replayItem r x with
+    | .ok r' => replayTrace r' rest
+    | .error e => .error e
+
 end VaxisModel.Model.Conc
